@@ -1,5 +1,6 @@
 #![allow(dead_code)]
 mod alloc;
+mod c07;
 mod case;
 mod check;
 mod crash;
@@ -14,6 +15,7 @@ mod prng;
 mod props;
 mod props2;
 mod props3;
+mod props4;
 mod run;
 mod simfs;
 mod walparse;
